@@ -6,10 +6,10 @@ import (
 	"crypto/sha1"
 	"encoding/hex"
 	"fmt"
-	"regexp"
-	"sort"
 	"os"
 	"path/filepath"
+	"regexp"
+	"sort"
 	"strconv"
 	"strings"
 	"time"
@@ -126,10 +126,10 @@ func Instant(t time.Time) string {
 }
 
 // ---- val terms (observables) ----
-func VS(s string) string           { return "(VS " + S(s) + ")" }
-func VZ(z int64) string            { return "(VZ " + Zt(z) + ")" }
-func VB(b bool) string             { return "(VB " + Bt(b) + ")" }
-func VL(items []string) string     { return "(VL " + L(items) + ")" }
+func VS(s string) string                { return "(VS " + S(s) + ")" }
+func VZ(z int64) string                 { return "(VZ " + Zt(z) + ")" }
+func VB(b bool) string                  { return "(VB " + Bt(b) + ")" }
+func VL(items []string) string          { return "(VL " + L(items) + ")" }
 func VC(tag string, a ...string) string { return "(VC " + S(tag) + " " + L(a) + ")" }
 func VOpt(present bool, t string) string {
 	if !present {
